@@ -167,6 +167,15 @@ func runC10(r *Report) {
 		}
 	}
 	r.Min("R10b", 8)
+	// entries leave the list only through list.Remove: nobody overwrites an element's Value
+	for _, fn := range p.ModuleFuncs() {
+		for _, st := range Sites(fn, func(in ssa.Instruction) bool {
+			x, ok := in.(*ssa.Store)
+			return ok && IsFieldAddr(x.Addr, "container/list.Element", "Value")
+		}) {
+			r.ObSite("R10b", st, "element-value-overwritten", false, "a list element's Value is overwritten: the entry it held leaves the cache without list.Remove and without its size being subtracted")
+		}
+	}
 
 	// R10c: accounting shape of every store to lru.size / cacheEntry.size; lock discipline.
 	for _, a := range p.FieldAccesses(lruT, "size") {
@@ -297,6 +306,50 @@ func runC10(r *Report) {
 			r.ObSite("R10d", s, "evict-only-over-max", g, "eviction happens only while size > max")
 		}
 		r.Anchor("R10d", "eviction loop removal in lru.Update", nLoop > 0)
+		// every completed entry met by the eviction cursor is evicted: from the completed arm of the
+		// pending test inside the loop, every path back to the loop head passes the removal.
+		for _, s := range CallSites(upd, listRemove) {
+			elem := s.Call().Common().Args[1]
+			if _, isphi := elem.(*ssa.Phi); !isphi {
+				continue
+			}
+			hdr := elem.(*ssa.Phi).Block()
+			found := false
+			for _, b := range upd.Blocks {
+				if !hdr.Dominates(b) || len(b.Instrs) == 0 {
+					continue
+				}
+				iff, ok := b.Instrs[len(b.Instrs)-1].(*ssa.If)
+				if !ok {
+					continue
+				}
+				ip, isPend := pendingGuard(normGuard(Guard{iff.Cond, true, b}), elem)
+				if !isPend {
+					continue
+				}
+				found = true
+				completedArm := b.Succs[0]
+				if ip {
+					completedArm = b.Succs[1]
+				}
+				skipped := false
+				WalkFrom(Site{upd, completedArm, -1, nil}, func(x Site) bool {
+					if x.Instr == s.Instr {
+						return false
+					}
+					if x.Block == hdr {
+						skipped = true
+						return false
+					}
+					if _, isret := x.Instr.(*ssa.Return); isret {
+						return false
+					}
+					return true
+				})
+				r.ObSite("R10d", Site{upd, b, len(b.Instrs) - 1, iff}, "evict-every-completed", !skipped, "a completed entry met by the eviction cursor while size > max must be evicted; a path skips the removal for a completed entry (only in-flight entries may be spared), so size can stay above max")
+			}
+			r.Anchor("R10d", "pending test inside the eviction loop", found)
+		}
 	}
 	// LRU order: only PushBack/MoveToBack/Remove/Front/Back/Len/Init on the lru list
 	for _, fn := range fns {
